@@ -7,7 +7,7 @@ CFG = {
     "trivial_prefix": ("-", "bytes="),
     "rule": "end to end on the real code: a Vaxis whose console is the real embedded emulator (term.Model without PTY; bytes -> real "
             "ansi parser -> update(); the emulator's replies are the console input); the same frame histories as C01 "
-            "(bounded-exhaustive two-frame histories on 1x4 + random histories with resizes + scenarios lp-semicolon, resize-pen, merge-0..2); per frame "
+            "(bounded-exhaustive two-frame histories on 1x4 + random histories with resizes, 1 in 3 starting with content a shell left on the primary screen + scenarios lp-semicolon, merge-0..2, resize-pen/-wrap/-scroll/-link/-grow); per frame "
             "(1) emurender/emurefresh: the emulator snapshot against the application's screen and cursor (oracle on the implementation), "
             "(2) emustate: THE COMPOSITION OF THE MODELS - renderer model (renderFrameC) -> wire (Model.C12Compose.opsOfToks) -> emulator "
             "model (runOps) against the real emulator's full state, (3) emudraw: the cells Draw puts into a host Vaxis window; per session "
@@ -18,8 +18,25 @@ CFG = {
                      "display cell' means; erased cell = default-style space with the stored background; shadow reading under wide glyphs)",
                      "the wire Model.C12Compose.opsOf (tokens -> parsed sequences; validated per frame by the composition stream)",
                      "renderer model and Spec.Display theorems of C01 (history of Ready terminals, bad = none), emulator model of C05, "
-                     "C06's exact-result lemmas for print and sgr_pen, C03's handleSequence model"],
-    "level_text": "Proved over the composed models, for ALL frame histories: emu_shows_application / emu_shows_application_now - from any "
+                     "C06's exact-result lemmas for print and sgr_pen, C03's handleSequence model; round 3 also C05's resize_frame / resize_safe, C01's Lemmas/RenderCursor, "
+                     "C07's Model/Startup + caps_exact (each tied to the code by its owner's stream)",
+                     "Model.C12Read.readScreen / readCursor (what 'reading the emulator back' means; evaluated on the real state every frame)"],
+    "level_text": "Round 3: (a) emu_shows_across_resizes / emu_reads_back_across_resizes (Props/C12Resize) - THE COMPOSITION THEOREM FOR WHOLE HISTORIES "
+                  "INCLUDING RESIZES: from any state of an application on the alternate screen whose last flush is complete (LinkedR; established by "
+                  "the real start-up stream: emu_real_startup_on_alt, and re-established by every frame and every resize), for every list of segments "
+                  "(resize of the emulator to any size 1x1..65535^2 - directly or by Draw into a window of another size: draw_resizes_linked - then any "
+                  "number of admissible frames at that size, the first a refresh) the emulator model never panics and after every frame of every segment "
+                  "its grid shows the application's screen and its cursor is as requested at that segment's size; uses C05's resize_frame / resize_safe "
+                  "after the F112c repair (aefad78) and C01's cursor_nonempty (the refresh frame does not rely on the cursor position). (b) shows_reads_back / "
+                  "emu_reads_back_every_frame (Props/C12Read) - the conclusion as EQUATIONS: readScreen enc e.active = expectedC (a function of the emulator "
+                  "grid: glyph cells decoded by enc, erased cells blank with their background, cells under a wide glyph = continuation) and readCursor e = the "
+                  "requested cursor; enc must invert dec on the strings of the frame. (c) emu_dialogue_caps (Props/C12Startup) - THE START-UP DIALOGUE FOR EVERY "
+                  "INTERLEAVING: with the emulator model's replies to sendQueries() as the inputs of Vaxis' input goroutine, every run of C07's start-up system "
+                  "(input goroutine || explicit-width probe answered or timed out || collection loop || applyQuirks, any queue capacity) that ends by the DA1 "
+                  "notification with nothing dropped, no env override and COLORTERM unset leaves exactly {sixels, unicodeCore, osc11 iff the background was "
+                  "reported}; the renderer's capabilities are emuCaps (C07's caps_exact + the invariant PInv: nothing on its way to the probe carries a column "
+                  "other than 1); emu_dialogue_terminates: such a run exists for every emulator state. "
+                  "Earlier rounds - proved over the composed models, for ALL frame histories: emu_shows_application / emu_shows_application_now - from any "
                   "emulator state showing the blank screen with the cursor hidden (one exists for every size 1x1..65535^2: emu_start_related), "
                   "for every history of admissible frames rendered under the capability set detected inside the emulator (first frame a "
                   "refresh), feeding the emulator model the parsed sequences of the renderer model's tokens never panics and after every frame "
@@ -48,11 +65,16 @@ CFG = {
                   "indicators / Hangul jamo / emoji+ZWJ in adjacent cells, Witness/F112d over the models, scenarios merge-0..2 on the real code; "
                   "render() writes consecutive cells without a CUP - renderer side, C01 builder informed). The theorems are over the models; the models are tied to the code per frame by the composition stream (full "
                   "emulator state), per start-up by the reply-exchange stream, and by the C01/C05/C03 streams. Sixel graphics behind DA1 "
-                  "attribute 4 are outside the emulator model (modelled-not-verified). A resize inside a history restarts the theorem at the "
-                  "new size (the host resizes the emulator first) - and the emulator does NOT re-establish the start state there: known finding "
-                  "F112c, resize() leaves the pen at the style of the last reflowed primary-screen cell (Witness/F112c over the model, scenario "
-                  "resize-pen on the real code; repair left to the owner of the emulator model). F02 was repaired in /repo by the C01 builder; the oracle follows.",
+                  "attribute 4 are outside the emulator model (modelled-not-verified). Resizes: covered by emu_shows_across_resizes for an application on the alternate "
+                  "screen (hypothesis mode.smcup, which the real start-up establishes and no token of the vocabulary changes); F112c (resize() left the pen at the "
+                  "style of the last reflowed primary-screen cell) was repaired in /repo by the C05 builder (aefad78) - Witness/F112c proves the old code fails and "
+                  "the current code keeps the pen, scenarios resize-* and the emuresize verdict replay it on the real code. emu_dialogue_caps is a statement about "
+                  "all runs that reach the end of New() by DA1 (plus one terminating run); that every maximal run terminates is not stated. COLORTERM=truecolor "
+                  "inherited from the host sets rgb without a reply (the emulator implements direct colour; the composition theorems are at emuCaps, rgb=false): "
+                  "explicit hypothesis colorterm=false. F112b: decision recorded in notes/C12.md - a violation of the text with a one-line repair in render(), not "
+                  "made because render()'s skeleton and the raw parameter string are pinned by C01's model (C01 builder declined for this round). "
+                  "F02 was repaired in /repo by the C01 builder; the oracle follows.",
     "assumptions": ["the host resizes the emulator before the application is told about a new size"],
     "technique": "Lean 4 proof (simulation Spec.Display ~ emulator model per renderer token, induction over frame histories; kernel "
-                 "evaluation of the reply exchange with a symbolic emulator state) + correspondence of the composed models with the real code",
+                 "evaluation of the reply exchange with a symbolic emulator state; invariant over C07's start-up transition system) + correspondence of the composed models with the real code",
 }
